@@ -17,10 +17,45 @@ fn install_hook() {
     HOOK.call_once(|| {
         std::panic::set_hook(Box::new(|info| {
             let loc = info.location().map(|l| format!("{}:{}", l.file(), l.line())).unwrap_or_default();
-            let msg = info.payload().downcast_ref::<&str>().map(|s| s.to_string()).or_else(|| info.payload().downcast_ref::<String>().cloned()).unwrap_or_default();
+            let mut msg = info.payload().downcast_ref::<&str>().map(|s| s.to_string()).or_else(|| info.payload().downcast_ref::<String>().cloned()).unwrap_or_default();
+            if is_std_path(&loc) {
+                let bt = std::backtrace::Backtrace::force_capture().to_string();
+                if std_panic_caller_is_third_party(&bt) {
+                    msg.push_str(" [called from a registry crate]");
+                }
+            }
             LAST_PANIC.with(|p| *p.borrow_mut() = Some((loc, msg)));
         }));
     });
+}
+
+fn is_std_path(loc: &str) -> bool {
+    loc.starts_with("/rustc/") || loc.starts_with("library/") || loc.contains("/library/core/") || loc.contains("/library/std/") || loc.contains("/library/alloc/")
+}
+
+const THIRD_PARTY: &[&str] = &[
+    "alloy_rlp", "fastrlp", "rlp::", "parity_scale_codec", "ssz::", "ethereum_ssz", "borsh", "der::", "serde_json", "serde::", "bincode",
+    "postgres_types", "bytes::", "num_bigint", "num_traits", "byte_slice_cast", "arrayvec", "hex::",
+];
+
+/// true iff the innermost non-std frame of the backtrace belongs to a third-party codec crate
+fn std_panic_caller_is_third_party(bt: &str) -> bool {
+    for line in bt.lines() {
+        let t = line.trim();
+        let Some((idx, sym)) = t.split_once(": ") else { continue };
+        if idx.parse::<u32>().is_err() {
+            continue;
+        }
+        let sym = sym.trim_start_matches('<');
+        let is_std = ["std::", "core::", "alloc::", "rust_begin_unwind", "__rust", "rust_panic", "backtrace::", "_Unwind", "__libc", "_start", "main", "__sanitizer", "__asan", "__interceptor"]
+            .iter()
+            .any(|p| sym.starts_with(p));
+        if is_std || sym.contains("install_hook") || (sym.contains("panic") && !sym.contains("ruint")) {
+            continue;
+        }
+        return THIRD_PARTY.iter().any(|p| sym.starts_with(p));
+    }
+    false
 }
 
 fn canonical<const B: usize, const L: usize>(v: &Uint<B, L>) -> bool {
@@ -135,8 +170,12 @@ fn check<const B: usize, const L: usize>(sel: u8, data: &[u8]) {
     match r {
         Err(_) => {
             let (loc, msg) = LAST_PANIC.with(|p| p.borrow_mut().take()).unwrap_or_default();
-            // only panics raised in ruint's own sources are attributed to ruint
-            if loc.contains("/repo/") {
+            if std::env::var("VERIF_FUZZ_DEBUG").is_ok() { eprintln!("caught panic loc={loc} msg={msg}"); }
+            // panics raised in ruint's own sources are attributed to ruint; so are panics located in
+            // std (bad arguments handed to std) unless the innermost non-std frame is a registry crate
+            let in_std = is_std_path(&loc);
+            if std::env::var("VERIF_FUZZ_DEBUG").is_ok() { eprintln!("in_std={in_std} marker={}", msg.ends_with("[called from a registry crate]")); }
+            if loc.contains("/repo/") || (in_std && !msg.ends_with("[called from a registry crate]")) {
                 eprintln!("VERIF-ORACLE decoder {sel} width {B} panicked in ruint at {loc}: {msg}");
                 std::process::abort();
             }
